@@ -63,7 +63,14 @@ pub enum Op {
 #[derive(Clone, Debug, Serialize, Deserialize, PartialEq)]
 pub enum Phase {
     Work { threads: Vec<Vec<Op>> },
-    Restart { append: bool, dirty: bool },
+    Restart {
+        append: bool,
+        dirty: bool,
+        /// reload order: the new appender is built while the old one is alive, the
+        /// old one writes one more record, then it is closed
+        #[serde(default)]
+        overlap: bool,
+    },
     /// C08: put / remove a directory where archive `base + off` should go
     Obstacle { off: u32, put: bool },
 }
@@ -106,6 +113,8 @@ struct Inflight {
     consults: u32,
     /// model's confirmed active size when the append was invoked... at first consult
     size_before: Option<u64>,
+    /// this append performed the first consultation of the appender's lifetime
+    first_consult: bool,
 }
 
 #[derive(Default)]
@@ -330,6 +339,9 @@ impl Trigger for ProbeTrigger {
         };
         if let Some(id) = id {
             if let Some(f) = self.sh.inflight.lock().unwrap().get_mut(&id) {
+                if matches!(self.inner, RealTrigger::OnStartUp(_)) && self.sh.life.lock().unwrap().consults == 1 {
+                    f.first_consult = true;
+                }
                 f.consults += 1;
                 if ans {
                     f.fired += 1;
@@ -493,6 +505,7 @@ fn gen_trigger(rng: &mut Rng, profile: &str) -> TriggerSpec {
     match profile {
         "C06" => TriggerSpec::Size { limit: gen_limit(rng) },
         "C06-fault" => TriggerSpec::Size { limit: *rng.pick(&[0u64, 10, 40, 100, 100, 300, 1024]) },
+        "C17-fault" => TriggerSpec::OnStartUp { min_size: *rng.pick(&[0u64, 1, 1, 10, 50]) },
         "C17" => TriggerSpec::OnStartUp { min_size: *rng.pick(&[0u64, 1, 1, 2, 10, 50, 200, 1024, 1025]) },
         "C08" | "C08-obst" => match rng.weighted(&[5, 3, 1, 1]) {
             0 => TriggerSpec::Size { limit: *rng.pick(&[0u64, 10, 40, 100, 100, 300, 1024]) },
@@ -574,7 +587,8 @@ pub fn generate(rng: &mut Rng, tier: Tier, profile: &str) -> Scn {
     for w in 0..nwork {
         if w > 0 {
             let ap = if rng.chance(4, 5) { append } else { !append };
-            phases.push(Phase::Restart { append: ap, dirty: rng.chance(1, 5) });
+            let dirty = rng.chance(1, 5);
+            phases.push(Phase::Restart { append: ap, dirty, overlap: ap && append && !dirty && rng.chance(1, 3) });
             if !ap {
                 cur = 0;
             }
@@ -636,7 +650,13 @@ pub fn generate(rng: &mut Rng, tier: Tier, profile: &str) -> Scn {
     let mut phases = phases;
     let mut append = append;
     let mut roller = roller;
-    if profile.starts_with("C08") || profile == "C06-fault" {
+    if profile.starts_with("C08") || profile == "C06-fault" || profile == "C17-fault" {
+        // the fault-free base execution and its fault variants must be the same history
+        for ph in phases.iter_mut() {
+            if let Phase::Restart { overlap, .. } = ph {
+                *overlap = false;
+            }
+        }
         if rng.chance(1, 3) {
             append = false;
         }
@@ -819,13 +839,15 @@ fn do_append(sh: &Arc<Shared>, appender: &RollingFileAppender, id: RecId, len: u
                 }
                 TriggerSpec::OnStartUp { min_size } if !dirty => {
                     let mut life = sh.life.lock().unwrap();
-                    let want = if life.acks == 0 && life.size_at_start >= *min_size { 1 } else { 0 };
-                    if fl.rolls != want {
+                    // a rotation may be requested only by the append that made the first
+                    // consultation of this lifetime (whether or not that rotation succeeded)
+                    let want = if fl.first_consult && life.size_at_start >= *min_size { 1 } else { 0 };
+                    if fl.rolls + fl.roll_errs != want {
                         sh.sink.fail(
                             "C17",
-                            if life.acks == 0 { "C17-I2" } else { "C17-I1" },
+                            if fl.first_consult { "C17-I2" } else { "C17-I1" },
                             "roll-count",
-                            format!("append of {} (number {} of this appender's lifetime; file held {} bytes at start-up, min_size {}) caused {} rotation(s), expected {}", id, life.acks + 1, life.size_at_start, min_size, fl.rolls, want),
+                            format!("append of {} (acknowledged number {} of this appender's lifetime, first consultation: {}; file held {} bytes at start-up, min_size {}) caused {} rotation request(s), expected {}", id, life.acks + 1, fl.first_consult, life.size_at_start, min_size, fl.rolls + fl.roll_errs, want),
                         );
                     }
                     life.acks += 1;
@@ -1025,7 +1047,7 @@ pub fn execute(scn: &Scn, opts: &ExecOpts) -> Outcome {
 
     // phase 0: build the first appender on a simulated thread (so the time
     // trigger reads the simulated clock in the scenario's zone)
-    let mut plan: Vec<Phase> = vec![Phase::Restart { append: scn.append, dirty: false }];
+    let mut plan: Vec<Phase> = vec![Phase::Restart { append: scn.append, dirty: false, overlap: false }];
     plan.extend(scn.phases.iter().cloned());
     let mut tid_base = 0u16;
     for (pi, ph) in plan.iter().enumerate() {
@@ -1033,8 +1055,11 @@ pub fn execute(scn: &Scn, opts: &ExecOpts) -> Outcome {
             break;
         }
         let bodies: Vec<Box<dyn FnOnce() + Send>> = match ph {
-            Phase::Restart { append, dirty } => {
+            Phase::Restart { append, dirty, overlap } => {
                 let (append, dirty) = (*append, *dirty);
+                // overlapping lifetimes only where the old appender's trigger has no per-lifetime state
+                let overlap = *overlap && append && !fault_mode && pi > 0 && matches!(scn.trigger, TriggerSpec::Script { .. } | TriggerSpec::Time { .. });
+                let overlap_tid = 700 + pi as u16;
                 let sh = sh.clone();
                 let live = live.clone();
                 let scn2 = scn.clone();
@@ -1043,6 +1068,30 @@ pub fn execute(scn: &Scn, opts: &ExecOpts) -> Outcome {
                     kernel::note("restart", &format!("append={} dirty={}", append, dirty));
                     wait_for_bg_rotation();
                     let old = live.lock().unwrap().appender.take();
+                    let prev_append = *sh.append_mode.lock().unwrap();
+                    // the old appender's extra record must not rotate the file under the new one
+                    let quiet = match &scn2.trigger {
+                        TriggerSpec::Time { .. } => clock::now_ns() < *sh.next_sched.lock().unwrap(),
+                        _ => true,
+                    };
+                    if overlap && prev_append && quiet && old.is_some() {
+                        *sh.append_mode.lock().unwrap() = true;
+                        // reload order: build the new appender first …
+                        let old = old.unwrap();
+                        match build_appender(&scn2, &sh, true) {
+                            Ok(newer) => {
+                                // … the old one still writes a record …
+                                let zero = Mutex::new(0u32);
+                                do_append(&sh, &old, RecId { tid: overlap_tid, n: 0 }, 20, &zero);
+                                drop(old);
+                                sh.sink.probe("overlapping_restarts", 1);
+                                // … then only the new one is used
+                                live.lock().unwrap().appender = Some(Arc::new(newer));
+                            }
+                            Err(e) => sh.sink.fail("C05", "C05-E0", "build-failed", format!("building the appender failed although nothing was injected: {:#}", e)),
+                        }
+                        return;
+                    }
                     if let Some(a) = old {
                         if dirty {
                             // process death without running destructors: user-space buffers are lost
@@ -1111,7 +1160,13 @@ pub fn execute(scn: &Scn, opts: &ExecOpts) -> Outcome {
                         // patterns with the index in a directory: sometimes a *file* where that directory is needed
                         let parent = p.parent().map(|x| x.to_path_buf());
                         let dir_pattern = matches!(roller, RollerSpec::Fixed { pat: PatKind::Dir | PatKind::Repeated | PatKind::DirSplit, .. });
-                        if put && dir_pattern && off % 2 == 0 && parent.as_ref().map(|x| !x.exists()).unwrap_or(false) {
+                        if put && dir_pattern && off % 3 == 1 && parent.as_ref().map(|x| fs::symlink_metadata(x).is_err()).unwrap_or(false) {
+                            // the slot directory is a link to a volume that is unavailable right now
+                            let gone = sh.names.root.with_extension("vol").join(off.to_string());
+                            let _ = std::os::unix::fs::symlink(&gone, parent.as_ref().unwrap());
+                            kernel::note("obstacle.dangling", &sh.names.key(parent.as_ref().unwrap()));
+                            sh.sink.probe("obstacle_dangling_symlink_slot_directory", 1);
+                        } else if put && dir_pattern && off % 2 == 0 && parent.as_ref().map(|x| !x.exists()).unwrap_or(false) {
                             let _ = fs::write(parent.as_ref().unwrap(), rmodel::OBSTACLE_MARK);
                             kernel::note("obstacle.file", &sh.names.key(parent.as_ref().unwrap()));
                             sh.sink.probe("obstacle_file_where_directory_needed", 1);
@@ -1124,6 +1179,9 @@ pub fn execute(scn: &Scn, opts: &ExecOpts) -> Outcome {
                             let _ = fs::remove_dir_all(&p);
                             if let Some(par) = &parent {
                                 if fs::read(par).map(|b| b == rmodel::OBSTACLE_MARK).unwrap_or(false) {
+                                    let _ = fs::remove_file(par);
+                                }
+                                if fs::symlink_metadata(par).map(|m| m.file_type().is_symlink()).unwrap_or(false) && fs::metadata(par).is_err() {
                                     let _ = fs::remove_file(par);
                                 }
                             }
@@ -1282,6 +1340,7 @@ pub fn execute(scn: &Scn, opts: &ExecOpts) -> Outcome {
     if let Some(r2) = &root2 {
         let _ = fs::remove_dir_all(r2);
     }
+    let _ = fs::remove_dir_all(sh.names.root.with_extension("vol"));
     out
 }
 
@@ -1325,6 +1384,7 @@ fn liveness_epilogue(k: &Arc<kernel::Kernel>, scn: &Scn, sh: &Arc<Shared>, live:
     let sh = sh.clone();
     let live = live.clone();
     let scn2 = scn.clone();
+    k.stop_faults();
     let body: Box<dyn FnOnce() + Send> = Box::new(move || {
         // the obstruction is gone
         if let RollerSpec::Fixed { base, count, .. } = &scn2.roller {
@@ -1336,6 +1396,12 @@ fn liveness_epilogue(k: &Arc<kernel::Kernel>, scn: &Scn, sh: &Arc<Shared>, live:
                 if let Some(par) = p.parent() {
                     if fs::read(par).map(|b| b == rmodel::OBSTACLE_MARK).unwrap_or(false) {
                         let _ = fs::remove_file(par);
+                    }
+                    // the unavailable volume is back: the link resolves again
+                    if fs::symlink_metadata(par).map(|m| m.file_type().is_symlink()).unwrap_or(false) && fs::metadata(par).is_err() {
+                        if let Ok(t) = fs::read_link(par) {
+                            let _ = fs::create_dir_all(t);
+                        }
                     }
                 }
             }
